@@ -130,6 +130,30 @@ prop("C06", "exploration",
      [{"test": "TestC06", "quick": {"checks": 600, "shards": 4, "timeout": 900},
        "thorough": {"checks": 5000, "shards": 16, "timeout": 3000}}])
 
+prop("C10", "exploration",
+     "cases = scripted call trees (Byzantium..Cancun, all call kinds, creation, re-entrancy, failing frames, 1-3 "
+     "invocations on one EVM) whose scripts contain journal actions: optional SSTORE of a generated word, key registration "
+     "(VSVJNAL) and 1-2 value journals (VVJNAL) for one of 12 keys (3 slots x 4 packed fields). A shadow journal is driven by "
+     "the event log: account = storage context derived from the frame kinds (must equal the executing scope address), call "
+     "index = call-tree index of the innermost enclosing CALL/CREATE frame (from the independent call-attempt log), value = "
+     "the packed field cut out of the real storage word read at that instant. For every (account, key) the record reached "
+     "by slot and by name must be the same and Changes()[idx] must equal the shadow list with immediate repeats collapsed; "
+     "no entry may exist under another index or account. Non-trivial = the same key journaled in >= 2 calls, or under "
+     "DELEGATECALL/CALLCODE/creation, or in a frame that failed.",
+     [{"test": "TestC10", "quick": {"checks": 6000, "shards": 2, "timeout": 600},
+       "thorough": {"checks": 60000, "shards": 16, "timeout": 3000}}])
+
+prop("C13", "exploration",
+     "cases = scripted call trees with 65% value-carrying calls (0, 1, more than the balance, self-transfers through "
+     "re-entrant calls, transfers to new accounts and to contracts under construction), frames that fail later, provider "
+     "failures, 1-3 invocations of all entry-point kinds. The harness Transfer wrapper logs (from, to, balances before and "
+     "after) of every transfer; the owning call index is the call-tree index of the frame being entered (independent "
+     "call-attempt log). For every account and index Balance(acct).Changes()[idx] must equal from-before, to-before, "
+     "from-after, to-after restricted to the account with immediate repeats collapsed; no other entry may exist. "
+     "Non-trivial = >= 2 transfers incl. a zero-value one, a self-transfer or one in a failed frame.",
+     [{"test": "TestC13", "quick": {"checks": 8000, "shards": 2, "timeout": 600},
+       "thorough": {"checks": 80000, "shards": 16, "timeout": 3000}}])
+
 # ---------------------------------------------------------------------------
 # Text for MANIFEST.json (gen_manifest.py)
 
@@ -202,6 +226,22 @@ MANIFEST_TEXT = {
         "level_note": "Trusted: debug-tracer stream; EIP-150 arithmetic for the gas passed to refused creates. For refused "
                       "attempts (no frame) the error text is not predicted, only its presence.",
         "technique": "property-based testing against an independent event-log oracle (rapid)",
+    },
+    "C10": {
+        "level_text": "Property-based testing against a shadow journal rebuilt from the event log of generated call trees "
+                      "(independent account and call-index derivation, real storage word read at the instant of journaling).",
+        "design_ref": "DESIGN.md section 4, C10",
+        "level_note": "Journal instructions executed under a top-level CALLCODE/DELEGATECALL/STATICCALL entry (no enclosing "
+                      "CALL/CREATE frame exists) are outside the statement and are not generated. Value decoding itself is C09's.",
+        "technique": "property-based testing against a shadow model driven by the event log (rapid)",
+    },
+    "C13": {
+        "level_text": "Property-based testing of a history invariant: the balance journal is compared with the balances the "
+                      "harness observed around every transfer of generated call trees.",
+        "design_ref": "DESIGN.md section 4, C13",
+        "level_note": "Trusted: BlockContext.Transfer wrapper as observation point; call-tree indices from the independent "
+                      "call-attempt log.",
+        "technique": "property-based testing of a history invariant against wrapper observations (rapid)",
     },
     "C15": {
         "level_text": "Model-based property testing: executable reference models of EIP-1153 and EIP-5656 (written from the "
